@@ -158,3 +158,18 @@ Definition exn_cfg_val (o : outcome) : val :=
 Definition write_unless_same (same : val -> val -> bool) (k : string) (v : val) (d : dict) : dict :=
   let cur := match sget k d with Some x => x | None => VNone end in
   if same cur v then d else sset k v d.
+
+(** [str(e)] and the exception object itself as a context value *)
+Definition exn_message (e : outcome) : string :=
+  match e with ORaise (RExn _ m _) => m | _ => "" end.
+Definition exn_val (e : outcome) : val :=
+  match e with ORaise (RExn n m i) => VExn n m i | _ => VNone end.
+
+(** [lst = context.setdefault(k, []); lst.append(v)] — the list under [k] (created empty when the
+    key is absent) grows by [v]; a non-list there has no [append]: outside the model *)
+Definition ctx_list_append (k : string) (v : val) (s : st) : R :=
+  match sget k (ctx s) with
+  | None => (OOk, set_ctx s (sset k (VList [v]) (ctx s)))
+  | Some (VList l) => (OOk, set_ctx s (sset k (VList (l ++ [v])) (ctx s)))
+  | Some _ => (OUnsup, s)
+  end.
